@@ -29,7 +29,8 @@ pub const ALPHA_G: &[&str] = &[
 
 fn toks(graphemes: bool, max: usize) -> BoxedStrategy<Vec<String>> {
     let alpha: &'static [&'static str] = if graphemes { ALPHA_G } else { ALPHA_CP };
-    proptest::collection::vec(select(alpha).prop_map(str::to_string), 0..=max).boxed()
+    // one token in 300 is the giant cluster (261 bytes; one character in grapheme mode)
+    proptest::collection::vec(prop_oneof![300 => select(alpha).prop_map(str::to_string), 1 => Just(crate::gen::GIANT.to_string())], 0..=max).boxed()
 }
 
 fn derive(a: &[String], edits: &[(u8, u16, String)]) -> Vec<String> {
